@@ -1,12 +1,370 @@
 package main
 
-import "fmt"
+import (
+	"bytes"
+	"encoding/json"
+	"flag"
+	"fmt"
+	"os"
+	"os/exec"
+	"path/filepath"
+	"regexp"
+	"strconv"
+	"strings"
+)
 
-// tryReplay attempts to reproduce a failed obligation against the real code.
+// A contract may carry
+//
+//	//@ flag replay <template> name=expr name=expr ...
+//
+// The expressions are evaluated in the function's entry state; their model
+// values (from the solver's counterexample) instantiate the Go test template
+// /verif/replay/<template>.go.tmpl, which calls the real code and checks the
+// property-level oracle. The test is injected with `go test -overlay`, so
+// nothing is written into /repo.
+
+type replayArg struct {
+	name string
+	term Term
+}
+
+func (fv *FuncVC) setupReplay() {
+	spec := ""
+	if fv.C != nil {
+		spec = fv.C.Flags["replay"]
+	}
+	if spec == "" {
+		return
+	}
+	f := strings.Fields(spec)
+	fv.replayTemplate = f[0]
+	env := fv.newEnv(fv.entry, fv.entry)
+	for _, a := range f[1:] {
+		i := strings.Index(a, "=")
+		if i < 0 {
+			fv.unsupported("replay argument %q needs name=expr", a)
+		}
+		e, err := parseExpr(a[i+1:])
+		if err != nil {
+			fv.unsupported("replay argument %q: %v", a, err)
+		}
+		env.cur = &Clause{Kind: "replay", Src: a, File: fv.C.File, Line: fv.C.Line}
+		t := env.eval(e)
+		if t.Untyped {
+			t = env.coerce(t, SInt)
+		}
+		fv.replayArgs = append(fv.replayArgs, replayArg{a[:i], t})
+	}
+}
+
+const replayBytesMax = 24
+
+// replayGetValues lists the terms whose model values the replay needs.
+func (fv *FuncVC) replayGetValues() []string {
+	var ts []string
+	for _, a := range fv.replayArgs {
+		switch a.term.Sort.Kind {
+		case KBytes:
+			ts = append(ts, fv.lenOf(a.term))
+			for i := 0; i < replayBytesMax; i++ {
+				ts = append(ts, fv.elemAt(a.term, fv.ilit(int64(i))))
+			}
+		case KIface:
+			ts = append(ts, app("Iface_tag", a.term.S))
+		default:
+			ts = append(ts, a.term.S)
+		}
+	}
+	return ts
+}
+
+// parseSexprs splits "((a 1) (b (- 2)))" into top-level pair strings.
+func parseValuePairs(out string) []string {
+	// find the first '(' after the "sat" line
+	i := strings.Index(out, "(")
+	if i < 0 {
+		return nil
+	}
+	s := out[i:]
+	depth := 0
+	var pairs []string
+	start := -1
+	for k := 0; k < len(s); k++ {
+		switch s[k] {
+		case '(':
+			depth++
+			if depth == 2 {
+				start = k
+			}
+		case ')':
+			if depth == 2 && start >= 0 {
+				pairs = append(pairs, s[start:k+1])
+				start = -1
+			}
+			depth--
+			if depth == 0 {
+				// next get-value answer follows
+				rest := s[k+1:]
+				return append(pairs, parseValuePairs(rest)...)
+			}
+		}
+	}
+	return pairs
+}
+
+// splitPair splits "(term value)" at the boundary between the two s-exprs.
+func splitPair(p string) (string, string) {
+	p = strings.TrimSpace(p)
+	p = p[1 : len(p)-1]
+	depth := 0
+	for i := 0; i < len(p); i++ {
+		switch p[i] {
+		case '(':
+			depth++
+		case ')':
+			depth--
+		case ' ':
+			if depth == 0 {
+				return p[:i], strings.TrimSpace(p[i+1:])
+			}
+		}
+		if depth == 0 && i+1 < len(p) && p[i] == ')' {
+			return p[:i+1], strings.TrimSpace(p[i+1:])
+		}
+	}
+	return p, ""
+}
+
+var reBV = regexp.MustCompile(`^\(_ bv(\d+) (\d+)\)$`)
+
+// modelInt parses an SMT value as an integer (bit-vectors as unsigned).
+func modelInt(v string) (int64, uint64, bool) {
+	v = strings.TrimSpace(v)
+	switch {
+	case strings.HasPrefix(v, "#x"):
+		u, err := strconv.ParseUint(v[2:], 16, 64)
+		return int64(u), u, err == nil
+	case strings.HasPrefix(v, "#b"):
+		u, err := strconv.ParseUint(v[2:], 2, 64)
+		return int64(u), u, err == nil
+	case reBV.MatchString(v):
+		m := reBV.FindStringSubmatch(v)
+		u, err := strconv.ParseUint(m[1], 10, 64)
+		return int64(u), u, err == nil
+	case strings.HasPrefix(v, "(- "):
+		n, err := strconv.ParseInt(strings.TrimSuffix(v[3:], ")"), 10, 64)
+		return -n, uint64(-n), err == nil
+	case v == "true":
+		return 1, 1, true
+	case v == "false":
+		return 0, 0, true
+	}
+	n, err := strconv.ParseInt(v, 10, 64)
+	if err != nil {
+		u, err2 := strconv.ParseUint(v, 10, 64)
+		return int64(u), u, err2 == nil
+	}
+	return n, uint64(n), true
+}
+
+func signedOf(u uint64, w int) int64 {
+	if w >= 64 {
+		return int64(u)
+	}
+	if u&(1<<uint(w-1)) != 0 {
+		return int64(u) - (1 << uint(w))
+	}
+	return int64(u)
+}
+
+// renderReplayArgs turns model values into Go literals for the template.
+func (fv *FuncVC) renderReplayArgs(out string) (map[string]string, bool) {
+	vals := map[string]string{}
+	for _, p := range parseValuePairs(out) {
+		t, v := splitPair(p)
+		vals[strings.Join(strings.Fields(t), " ")] = v
+	}
+	look := func(term string) (string, bool) {
+		v, ok := vals[strings.Join(strings.Fields(term), " ")]
+		return v, ok
+	}
+	res := map[string]string{}
+	for _, a := range fv.replayArgs {
+		switch a.term.Sort.Kind {
+		case KBytes:
+			lv, ok := look(fv.lenOf(a.term))
+			if !ok {
+				return nil, false
+			}
+			n, _, ok := modelInt(lv)
+			if !ok || n < 0 || n > 1<<20 {
+				return nil, false
+			}
+			b := make([]byte, n)
+			for i := range b {
+				b[i] = 'a'
+			}
+			for i := 0; i < replayBytesMax && int64(i) < n; i++ {
+				ev, ok := look(fv.elemAt(a.term, fv.ilit(int64(i))))
+				if !ok {
+					continue
+				}
+				x, _, _ := modelInt(ev)
+				b[i] = byte(x)
+			}
+			res[a.name] = strconv.Quote(string(b))
+		case KIface:
+			v, ok := look(app("Iface_tag", a.term.S))
+			if !ok {
+				return nil, false
+			}
+			n, _, _ := modelInt(v)
+			res[a.name] = fmt.Sprint(n != 0) // non-nil?
+		case KBool:
+			v, ok := look(a.term.S)
+			if !ok {
+				return nil, false
+			}
+			res[a.name] = v
+		default:
+			v, ok := look(a.term.S)
+			if !ok {
+				return nil, false
+			}
+			n, u, ok := modelInt(v)
+			if !ok {
+				return nil, false
+			}
+			if a.term.Sort.Kind == KInt && fv.Mode == ModeBV {
+				if a.term.Sort.Signed {
+					res[a.name] = fmt.Sprint(signedOf(u, a.term.Sort.W))
+				} else {
+					res[a.name] = fmt.Sprint(u)
+				}
+			} else {
+				res[a.name] = fmt.Sprint(n)
+			}
+		}
+	}
+	return res, true
+}
+
+var rePkgDir = regexp.MustCompile(`(?m)^// pkgdir: (\S+)`)
+var reTags = regexp.MustCompile(`(?m)^// tags: (\S+)`)
+
+// runReplayTest injects src as a test file into the package directory and
+// runs it. It returns (ran, failed, output).
+func runReplayTest(repo, pkgdir, tags, src string) (bool, bool, string) {
+	tmp, err := os.MkdirTemp("", "govc-replay-")
+	if err != nil {
+		return false, false, err.Error()
+	}
+	defer os.RemoveAll(tmp)
+	tf := filepath.Join(tmp, "zz_verif_replay_test.go")
+	if err := os.WriteFile(tf, []byte(src), 0o644); err != nil {
+		return false, false, err.Error()
+	}
+	target := filepath.Join(repo, pkgdir, "zz_verif_replay_test.go")
+	ov, _ := json.Marshal(map[string]interface{}{"Replace": map[string]string{target: tf}})
+	of := filepath.Join(tmp, "overlay.json")
+	os.WriteFile(of, ov, 0o644)
+	args := []string{"test", "-overlay", of, "-vet=off", "-count=1", "-timeout", "60s", "-run", "TestVerifReplay"}
+	if tags != "" {
+		args = append(args, "-tags", tags)
+	}
+	args = append(args, "./"+pkgdir)
+	cmd := exec.Command("go", args...)
+	cmd.Dir = repo
+	cmd.Env = append(os.Environ(), "GOFLAGS=-mod=mod", "GOPROXY=off", "GOSUMDB=off", "GOTOOLCHAIN=local")
+	var buf bytes.Buffer
+	cmd.Stdout = &buf
+	cmd.Stderr = &buf
+	err = cmd.Run()
+	out := buf.String()
+	if len(out) > 6000 {
+		out = out[:6000] + "...(truncated)"
+	}
+	if err == nil {
+		return true, false, out
+	}
+	if strings.Contains(out, "--- FAIL") || strings.Contains(out, "panic:") {
+		return true, true, out
+	}
+	return false, false, out // build error etc.
+}
+
 func tryReplay(verif, prop string, o *Obligation, rf *replayFile) {
+	fv := o.fv
+	if fv == nil || fv.replayTemplate == "" || o.Res.Verdict != VSat {
+		return
+	}
+	args, ok := fv.renderReplayArgs(o.Res.Output)
+	if !ok {
+		rf.ReplayOut = "model did not give values for all replay inputs"
+		return
+	}
+	tmpl, err := os.ReadFile(filepath.Join(verif, "replay", fv.replayTemplate+".go.tmpl"))
+	if err != nil {
+		rf.ReplayOut = err.Error()
+		return
+	}
+	src := string(tmpl)
+	for k, v := range args {
+		src = strings.ReplaceAll(src, "{{"+k+"}}", v)
+	}
+	src = strings.ReplaceAll(src, "{{OBLIGATION}}", strconv.Quote(o.Name))
+	pkgdir := "."
+	if m := rePkgDir.FindStringSubmatch(src); m != nil {
+		pkgdir = m[1]
+	}
+	tags := fv.P.Tags
+	tags = strings.TrimPrefix(strings.TrimPrefix(tags, "verif"), ",")
+	rf.ReplayTest = src
+	ran, failed, out := runReplayTest(fv.P.Root, pkgdir, tags, src)
+	rf.ReplayRan, rf.ReplayFails, rf.ReplayOut = ran, failed, out
+	o.replayed = ran && failed
 }
 
 func cmdReplay(args []string) int {
-	fmt.Println("replay: see the replay file's replay_test field; run it with go test -overlay")
-	return 0
+	fs := flag.NewFlagSet("replay", flag.ExitOnError)
+	file := fs.String("file", "", "replay file")
+	repo := fs.String("repo", "/repo", "repository root")
+	fs.String("prop", "", "property id")
+	fs.Parse(args)
+	data, err := os.ReadFile(*file)
+	if err != nil {
+		fmt.Fprintln(os.Stderr, err)
+		return 2
+	}
+	var rf replayFile
+	if err := json.Unmarshal(data, &rf); err != nil {
+		fmt.Fprintln(os.Stderr, err)
+		return 2
+	}
+	fmt.Printf("obligation: %s\nfunction:   %s\nwhere:      %s\nspec:       %s\nverdicts:   %v\n", rf.Obligation, rf.Function, rf.Where, rf.Spec, rf.Verdicts)
+	if rf.ReplayTest == "" {
+		fmt.Println("no executable replay for this obligation (no-failing-input-found); solver output:")
+		fmt.Println(rf.SolverOut)
+		return 1
+	}
+	pkgdir := "."
+	if m := rePkgDir.FindStringSubmatch(rf.ReplayTest); m != nil {
+		pkgdir = m[1]
+	}
+	tags := ""
+	if m := reTags.FindStringSubmatch(rf.ReplayTest); m != nil {
+		tags = m[1]
+	}
+	ran, failed, out := runReplayTest(*repo, pkgdir, tags, rf.ReplayTest)
+	fmt.Println(out)
+	if ran && failed {
+		fmt.Println("replay: the failing input reproduces on the real code")
+		return 1
+	}
+	if ran {
+		fmt.Println("replay: the test passes on the current tree")
+		return 0
+	}
+	fmt.Println("replay: could not run the test")
+	return 2
 }
